@@ -113,3 +113,54 @@ Example C20_bytes_sorted_excluded :
   no_sorted m = false /\
   fst (rw (enc cl_ke m) [Some (kb cl_ke' (g 1)); Some (kb cl_ke' (g 2))]) <> enc cl_ke' (map_atoms g (fun _ h => h) m).
 Proof. cbv zeta. split; [reflexivity|]. vm_compute. discriminate. Qed.
+
+(* ==================================================================================================================
+   (B, second part) translate_pk with MULTIPATH target keys (Ms/TranslateMpModel.v, Proofs/TranslateMpProofs.v; found by the
+   translate-mp stage): Tr::translate_pk goes through Tr::new, which re-runs the per-leaf top-level checks (base type B,
+   multipath lengths), Wsh / Sh / Bare ::translate_pk do not.  [np k] = number of derivation paths of the target key k. *)
+From Verif Require Import TranslateMpModel TranslateMpProofs.
+
+(* without multipath target keys the extended model is translate_desc_h: the theorems of Properties/C20.v carry over *)
+Theorem C20_desc_mp_agrees : forall fp fhp chk kk np d d', (forall k, np k <= 1) ->
+  (forall ik ls, d = DTr ik ls -> forallb (fun l => base_is_b (snd l)) ls = true) ->
+  translate_desc_h (fun _ => fp) (fun _ => fhp) chk kk d = TOk d' ->
+  translate_desc_mp (fun _ => fp) (fun _ => fhp) chk kk np d = MpOk d'.
+Proof. exact desc_mp_agrees. Qed.
+Print Assumptions C20_desc_mp_agrees.
+
+(* every failure named, multipath included: either what C20_desc_h_fail_names_node names, or (tr only) the j-th leaf, every
+   key and hash of the descriptor being mapped, whose substitution mixes multipath lengths (or whose base type is not B) *)
+Theorem C20_desc_mp_fail_names_node : forall fp fhp chk kk np d e,
+  translate_desc_mp (fun _ => fp) (fun _ => fhp) chk kk np d = MpErr e ->
+  (exists e0, e = MpT e0 /\ names_node fp fhp chk kk d e0) \/
+  (exists ik ls j dep m, d = DTr ik ls /\ nth_error ls j = Some (dep, m) /\
+      (forall a, In a (datoms d) -> atom_ok fp fhp a = true) /\
+      ((e = MpLenMismatch /\ mp_mismatch np (map_atoms (total fp) (total_h fhp) m) = true) \/
+       (e = MpNonBase /\ base_is_b m = false))).
+Proof. exact desc_mp_fail_names. Qed.
+Print Assumptions C20_desc_mp_fail_names_node.
+
+(* ... and a length mismatch names two keys of that script: "a mapped key is illegal in the context" of the other one *)
+Theorem C20_mp_mismatch_names_keys : forall np m, mp_mismatch np m = true ->
+  exists k1 k2, In k1 (keys_pre m) /\ In k2 (keys_pre m) /\ 1 < np k1 /\ 1 < np k2 /\ np k1 <> np k2.
+Proof. exact mp_mismatch_two_keys. Qed.
+Print Assumptions C20_mp_mismatch_names_keys.
+
+(* the wrappers disagree (model; confirmed on the real code by the translate-mp stage): keys 0,1 -> 10 (2 paths), 11 (3 paths)
+   in ONE script: wsh and sh return a descriptor that the constructor's own top-level check rejects, tr refuses; lengths that
+   differ only between the internal key and a leaf are accepted by tr *)
+Example C20_mp_wrappers_disagree :
+  let np := fun k : key => if N.eqb k 10 then 2 else if N.eqb k 11 then 3 else 1 in
+  let kk := fun _ : key => KCompressed in
+  let kkx := fun _ : key => KXOnly in
+  let chk := fun kk c => from_ast_chk c kk (fun _ => None) (fun _ => None) in
+  let body := MAndV (MVerify (MCheck (MPkK 0))) (MCheck (MPkK 1)) in
+  let body' := MAndV (MVerify (MCheck (MPkK 10))) (MCheck (MPkK 11)) in
+  let fpm := fun (_ : N) (k : key) => Some (k + 10) in
+  let fhm := fun (_ : N) (_ : hkind) (h : bytes) => Some h in
+  translate_desc_mp fpm fhm (chk kk) kk np (DWsh body) = MpOk (DWsh body') /\
+  ctor_top np (DWsh body') = Some MpLenMismatch /\
+  translate_desc_mp fpm fhm (chk kk) kk np (DSh body) = MpOk (DSh body') /\
+  translate_desc_mp fpm fhm (chk kkx) kkx np (DTr 5 [(0, body)]) = MpErr MpLenMismatch /\
+  translate_desc_mp fpm fhm (chk kkx) kkx np (DTr 0 [(0, MCheck (MPkK 1))]) = MpOk (DTr 10 [(0, MCheck (MPkK 11))]).
+Proof. exact translate_mp_examples. Qed.
